@@ -109,3 +109,7 @@ PLAN["C17"]["thorough"] = PLAN["C17"]["thorough"] + ["conc"]
 
 PLAN["C07"]["quick"] = PLAN["C07"]["quick"] + ["conc"]
 PLAN["C07"]["thorough"] = PLAN["C07"]["thorough"] + ["conc"]
+
+SUITES["stagger"] = dict(mc="MC_Seq")
+PLAN["C13"]["quick"] = PLAN["C13"]["quick"] + ["stagger"]
+PLAN["C13"]["thorough"] = PLAN["C13"]["thorough"] + ["stagger"]
